@@ -69,9 +69,21 @@ fn t_acq(g: &Grid) -> u64 {
     600 * SEC
 }
 
-/// steady-state bound on |true offset|: 1 us + 5 J (J = peak-to-peak jitter)
-fn bound_bits(g: &Grid) -> i128 {
-    ((1_000 + 5 * g.jitter_ns) as i128) << 32
+/// steady-state bound on |true offset| (J = peak-to-peak jitter), by jitter realisation:
+///   constant delay            1 us                (observed: 0)
+///   low-discrepancy sequence  1 us + 2 J          (observed over four seeds: at most 0.56 J)
+///   strictly alternating      100 us + 2 J        (adversarial: the servo answers long runs of
+///                                                  equal samples with bursts; observed 55 us)
+/// plus 2 J when the execution contains departures (a flipped frame is an outlier of size J).
+fn bound_bits(g: &Grid, departures: bool) -> i128 {
+    let j = g.jitter_ns as i128;
+    let base = match g.pattern {
+        _ if g.jitter_ns == 0 => 1_000,
+        0 => 1_000,
+        1 => 100_000 + 2 * j,
+        _ => 1_000 + 2 * j,
+    };
+    (base + if departures { 2 * j } else { 0 }) << 32
 }
 
 pub struct Outcome {
@@ -94,7 +106,7 @@ pub fn run_one(g: &Grid, dev: &[(usize, usize)], window: (u64, u64), horizon_s: 
     let Some(slave_at) = slave_at else {
         return Outcome { violations: vec![("never-slave".into(), "the port never became slave".into())], choice_points: res.choice_points, settled_at: None, worst_after: 0 };
     };
-    let bound = bound_bits(g);
+    let bound = bound_bits(g, !dev.is_empty());
     // last snapshot at which the bound is violated, last step command
     let last_bad = res.snapshots.iter().filter(|s| (s.offsets[1] - s.offsets[0]).abs() > bound).map(|s| s.t).max();
     let last_step = res.clock_cmds.iter().filter(|c| c.1 == 1 && matches!(c.3, ClockCmd::Step(_))).map(|c| c.0).max();
@@ -129,7 +141,7 @@ pub fn run_one(g: &Grid, dev: &[(usize, usize)], window: (u64, u64), horizon_s: 
 
 pub fn grid(tier: Tier) -> Vec<Grid> {
     let mut out = vec![];
-    let offsets: Vec<i64> = if tier == Tier::Thorough { vec![-10_000_000_000, -1_000_000_000, -900_000, 0, 500_000, 2_500_000_000, 10_000_000_000] } else { vec![-10_000_000_000, -900_000, 0, 2_500_000_000] };
+    let offsets: Vec<i64> = if tier == Tier::Thorough { vec![-10_000_000_000, -1_000_000_000, -30_000_000, -900_000, 0, 500_000, 300_000_000, 2_500_000_000, 10_000_000_000] } else { vec![-10_000_000_000, -900_000, 0, 300_000_000, 2_500_000_000] };
     let ppms: Vec<f64> = if tier == Tier::Thorough { vec![-150.0, -20.0, 0.0, 20.0, 150.0] } else { vec![-150.0, 0.0, 20.0] };
     let delays: Vec<u64> = if tier == Tier::Thorough { vec![1_000, 100_000, 400_000] } else { vec![1_000, 400_000] };
     let jitters: Vec<u64> = vec![0, 2_000, 20_000];
@@ -169,6 +181,9 @@ pub fn grid(tier: Tier) -> Vec<Grid> {
     out
 }
 
+/// horizon of the default executions
+const LONG_HORIZON_S: u64 = 1800;
+
 fn horizon(g: &Grid) -> u64 {
     (t_acq(g) / SEC) + 12 + 60
 }
@@ -184,7 +199,7 @@ pub fn run(tier: Tier) -> i32 {
         let rows: Vec<String> = grid(Tier::Thorough)
             .par_iter()
             .map(|g| {
-                let o = run_one(g, &[], (0, 0), 1000);
+                let o = run_one(g, &[], (0, 0), LONG_HORIZON_S);
                 if let Ok(h) = std::env::var("C02_BUCKETS") {
                     let h: u64 = h.parse().unwrap();
                     let spec = spec_of(g, h, (0, 0));
@@ -226,7 +241,8 @@ pub fn run(tier: Tier) -> i32 {
         .par_iter()
         .map(|g| {
             let mut viols = vec![];
-            let o = run_one(g, &[], (0, 0), horizon(g));
+            // the default execution is followed for half an hour of simulated time ("stays below it")
+            let o = run_one(g, &[], (0, 0), LONG_HORIZON_S);
             viol(g, (0, 0), &[], o.violations, &mut viols);
             (1, viols, o.settled_at, o.worst_after, 0)
         })
@@ -328,7 +344,7 @@ pub fn run(tier: Tier) -> i32 {
     rep.cover("exhaustive", json!(true));
     rep.cover("samples", json!(gs.iter().step_by(gs.len() / 4 + 1).map(|g| json!(g)).collect::<Vec<_>>()));
     rep.assume("'states'/'transitions' count complete closed-loop executions (each one trace of a real master port, a real slave port and the real Kalman filter); the slave's clock is an exact oscillator model steered only through statime::Clock");
-    rep.assume("bounds: |true offset| <= 1 us + 5 J from 600 s after the port became slave until the horizon (60 s later), no step after that deadline; symmetric path; two-step master (the repository's own) and the same master turned one-step by the link");
+    rep.assume("bounds: |true offset| <= 1 us (constant delay) / 1 us + 2 J (low-discrepancy jitter) / 100 us + 2 J (strictly alternating jitter), + 2 J in executions with departures, from 600 s after the port became slave until the horizon (1800 s for the default executions, 60 s after the deadline for executions with departures), no step after that deadline; symmetric path; two-step master (the repository's own) and the same master turned one-step by the link");
     rep.finish()
 }
 
@@ -346,7 +362,8 @@ pub fn replay(r: &serde_json::Value) {
         }
     };
     {
-        let spec = spec_of(&g, horizon(&g), w);
+        let hz = if dev.is_empty() && w == (0, 0) { LONG_HORIZON_S } else { horizon(&g) };
+        let spec = spec_of(&g, hz, w);
         let mut choices = Choices::with(&dev);
         let res = simulate(&spec, &[], &mut choices, SEC / 4);
         for t in &res.transitions {
@@ -366,7 +383,7 @@ pub fn replay(r: &serde_json::Value) {
             }
         }
     }
-    let o = run_one(&g, &dev, w, horizon(&g));
+    let o = run_one(&g, &dev, w, if dev.is_empty() && w == (0, 0) { LONG_HORIZON_S } else { horizon(&g) });
     println!("grid {:?} deviations {:?}: settled {:?} ns after slave, worst offset after the deadline {:.1} ns", g, dev, o.settled_at, o.worst_after as f64 / 4294967296.0);
     for (s, m) in o.violations {
         println!("VIOLATION {s} :: {m}");
